@@ -15,12 +15,14 @@ pub mod c13;
 pub mod c14;
 pub mod c15;
 pub mod c16;
+pub mod c17;
 pub mod c18;
+pub mod c19;
 pub mod c20;
 
 use crate::core::run::{Check, Tier};
 
-pub const ALL: &[&str] = &["C01", "C02", "C03", "C04", "C05", "C06", "C07", "C08", "C09", "C10", "C11", "C12", "C13", "C14", "C15", "C16", "C18", "C20"];
+pub const ALL: &[&str] = &["C01", "C02", "C03", "C04", "C05", "C06", "C07", "C08", "C09", "C10", "C11", "C12", "C13", "C14", "C15", "C16", "C17", "C18", "C19", "C20"];
 
 pub fn build(id: &str, tier: Tier) -> Option<Check<'static>> {
     Some(match id {
@@ -35,7 +37,9 @@ pub fn build(id: &str, tier: Tier) -> Option<Check<'static>> {
         "C10" => c10::build(tier),
         "C09" => c09::build(tier),
         "C18" => c18::build(tier),
+        "C17" => c17::build(tier),
         "C20" => c20::build(tier),
+        "C19" => c19::build(tier),
         "C03" => c03::build(tier),
         "C04" => c04::build(tier),
         "C05" => c05::build(tier),
